@@ -53,11 +53,15 @@ impl Rng {
     }
     pub fn u16(&mut self) -> u16 {
         // bias towards boundary values
-        match self.below(8) {
+        match self.below(10) {
             0 => 0,
             1 => 0xffff,
             2 => self.below(4) as u16,
             3 => 0xff00 | self.u8() as u16,
+            // values that collide with constants of the codec (header sizes, limits, type numbers, masks)
+            4 => *self.pick(&[6u16, 8, 10, 12, 16, 20, 26, 32, 36, 39, 40, 64, 128, 255, 256, 511, 512, 1023, 1024, 4896, 0x3fff, 0x4000,
+                              0x7fff, 0x8000, 0x8001, 0xc000, 0xfffe]),
+            5 => self.below(64) as u16,
             _ => self.next() as u16,
         }
     }
